@@ -13,8 +13,8 @@ from harness.core import cbool, clist, cq, cz, czlist, float_ratio
 
 ID = "C09"
 MODEL_TARGETS = ["C09/Cases.vo"]
-PROOF_TARGETS = ["C09/Proofs.vo"]
-OBLIGATION_FILES = []
+PROOF_TARGETS = ["C09/Proofs.vo", "C09/SiteLib.vo", "C09/Site.vo", "C09/Bridge.vo"]
+OBLIGATION_FILES = ["C09/Bridge.v"]
 PROPS_FILE = "C09/Props.v"
 SHARD = 60
 PER_CASE_TIMEOUT = 120
@@ -48,6 +48,13 @@ MODELLED = [
 NOT_RUNNABLE = []
 
 AGGS = ["mean", "median", "min", "max"]
+
+
+def translate(repo):
+    """regenerate build/coq/C09/Site.v from compose/_ensemble, _pipeline, _multiplexer, _stack,
+    base/_meta and the own-data methods of base/_sktime (fail closed)"""
+    from translator import compose_c09
+    return compose_c09.translate(repo)
 
 # ------------------------------------------------------------------------------------------------
 # recording doubles (created lazily: sktime is only importable inside the driver)
